@@ -166,6 +166,80 @@ def run(ctx):
             )
     ctx.count("column_emission_sites", n_sites)
     ctx.floor("column emission sites", n_sites, 2)
+    # every call of ensure_has_primary_key inside an emitter forwards the emitter's own force_pk_id, so
+    # that the three variants resolve the primary key identically
+    n_calls = 0
+    for f in index.nontest_funcs():
+        if f.mod.name != "cdd.sqlalchemy.emit" or "force_pk_id" not in f.params:
+            continue
+        for n in iter_own(f.node):
+            if isinstance(n, ast.Call) and index.callee(f.mod, n, f) == ehp.qual:
+                n_calls += 1
+                a = None
+                for k in n.keywords:
+                    if k.arg == "force_pk_id":
+                        a = k.value
+                if a is None and len(n.args) > 1:
+                    a = n.args[1]
+                ok = isinstance(a, ast.Name) and a.id == "force_pk_id"
+                ctx.ob(
+                    "C05.pk",
+                    f,
+                    n,
+                    ok,
+                    ""
+                    if ok
+                    else "ensure_has_primary_key is called without forwarding {}'s force_pk_id: this variant infers a "
+                    "different primary key than its siblings (and a later correct call finds a PK already "
+                    "marked)".format(f.short),
+                )
+    ctx.floor("ensure_has_primary_key calls in emitters", n_calls, 2)
+    # the class reader skips exactly the non-column attributes the class emitter writes
+    c2t = index.func(EU + "sqlalchemy_class_to_table")
+    emitted_dunders = set()
+    for f in index.nontest_funcs():
+        if f.mod.name == "cdd.sqlalchemy.emit":
+            for n in iter_own(f.node):
+                if isinstance(n, ast.Call) and norm(n.func).rpartition(".")[2] == "Name" and n.args and isinstance(n.args[0], ast.Constant) and isinstance(n.args[0].value, str) and n.args[0].value.startswith("__"):
+                    emitted_dunders.add(n.args[0].value)
+                if isinstance(n, ast.Constant) and isinstance(n.value, str) and n.value.startswith("__") and n.value.endswith("__") and n.value != "__init__":
+                    emitted_dunders.add(n.value)
+    n_filters = 0
+    for n in iter_own(c2t.node):
+        if not isinstance(n, ast.Lambda) or [a.arg for a in n.args.args] != ["target"]:
+            continue
+        n_filters += 1
+        body = n.body
+        consts = set()
+        disjuncts = body.values if isinstance(body, ast.BoolOp) and isinstance(body.op, ast.Or) else [body]
+        for dj in disjuncts:
+            if "target.id" not in norm(dj):
+                continue  # a structural test, not a test on the attribute's name
+            if isinstance(dj, ast.Compare) and norm(dj.left) == "target.id" and len(dj.ops) == 1 and isinstance(dj.ops[0], ast.Eq) and isinstance(dj.comparators[0], ast.Constant):
+                consts.add(dj.comparators[0].value)
+            elif isinstance(dj, ast.Compare) and norm(dj.left) == "target.id" and len(dj.ops) == 1 and isinstance(dj.ops[0], ast.In) and isinstance(dj.comparators[0], (ast.Tuple, ast.List, ast.Set)):
+                consts |= {e.value for e in dj.comparators[0].elts if isinstance(e, ast.Constant)}
+            else:
+                consts = None
+                break
+        ok = consts is not None and consts <= emitted_dunders
+        ctx.ob(
+            "C05.vocab",
+            c2t,
+            "non-column attributes skipped by the class reader: " + short(body, 60),
+            ok,
+            ""
+            if ok
+            else (
+                "the class reader skips an open-ended family of attribute names ({}) while the class emitter writes every "
+                "column as `name = Column(...)`: columns with such names vanish when the class form is parsed "
+                "back".format(short(body, 50))
+                if consts is None
+                else "the class reader skips {} which the emitter never writes as a non-column".format(sorted(consts - emitted_dunders))
+            ),
+            line=n.lineno,
+        )
+    ctx.need(n_filters >= 1, "the non-column filter vanished from sqlalchemy_class_to_table")
     facts_at = {}
 
     def on_stmt(s, facts):
